@@ -338,6 +338,10 @@ func cmdCheck(args []string) int {
 		byPkg := map[string][]nativeCase{}
 		expect := map[string][]pathModel{}
 		for _, r := range results {
+			if r.Spec.Params["freeDigest"] == 1 {
+				// digests are free solver variables on these paths: the native run (real SHA-1) need not follow the same path
+				continue
+			}
 			n := 0
 			for _, pm := range r.PathModels {
 				if n >= 12 {
